@@ -22,7 +22,7 @@ func c08Spec(tier string) *HSpec {
 	msgs := []string{"", "m1", "m2", "m3", "m4", "m5", "m6"}
 	spec := &HSpec{
 		Prop: "C08", Name: "C08", Depth: depth,
-		Obs: ObsSpec{Hosts: []string{"a.example.com"}, Paths: []string{"/", "/up", "/up/", "/x?up"}, Cookies: []string{"", "v"}, TLS: []bool{false}, Methods: []string{"GET", "POST"}},
+		Obs:     ObsSpec{Hosts: []string{"a.example.com"}, Paths: []string{"/", "/up", "/up/", "/x?up"}, Cookies: []string{"", "v"}, TLS: []bool{false}, Methods: []string{"GET", "POST"}},
 		Clauses: map[string]bool{"routing": true, "gate": true, "target-set": true, "stop-message": true, "list": true},
 	}
 	spec.Alphabet = func(m *Model, d int) []string {
